@@ -244,6 +244,76 @@ def check_substances(run, probe, dump, reg, tag, source):
                         temps[meta[pname]["output_name"]] = o
 
 
+def check_prefixes(run, probe, cid, dump, reg, tag, sources):
+    """Prefixes (and the long prefixes stored as units) have no entry in registry.definitions: their
+    definition text comes from the parsed files.  Each is re-evaluated in the prefix namespace by the
+    independent evaluator and, through its printed text, by rink itself in the loaded context."""
+    stored = {}
+    for name, j in dump["prefixes"]:
+        stored[name] = j
+    for source in sources:
+        r = probe.request({"op": "defs", "source": source}, timeout=120)
+        if "defs" not in r:
+            raise HarnessError("defs failed: %r" % (r,))
+        known = {}
+
+        def env(name, known=known):
+            return known.get(name)
+        # prefixes may refer to prefixes defined anywhere in the file: iterate to a fixed point
+        entries = [e for e in r["defs"] if e["kind"] == "prefix"]
+        pending = list(entries)
+        for _ in range(len(entries) + 1):
+            rest = []
+            for e in pending:
+                try:
+                    v = R.evaluate(rinkast.from_json(e["exprs"][0]["ast"]), env)
+                    if v.d:
+                        raise R.OutOfScope("dimensioned prefix")
+                    known[e["name"]] = v
+                except (R.OutOfScope, R.Undefined, R.DimErr, rinkast.Unsupported):
+                    rest.append(e)
+            if len(rest) == len(pending):
+                break
+            pending = rest
+        for e in entries:
+            run.evaluations += 1
+            name = e["name"]
+            if name not in stored:
+                run.violation({"kind": "prefix_missing_after_load", "name": name}, {"db": tag}, "")
+                continue
+            sj = stored[name]
+            if sj.get("f") or "n" not in sj:
+                continue
+            sv = Fraction(int(sj["n"]), int(sj["d"]))
+            if name in known:
+                if known[name].v != sv:
+                    run.violation({"kind": "prefix_value_not_fixed_point", "name": name},
+                                  {"db": tag, "definition": e["exprs"][0]["text"], "stored": str(sv), "python": str(known[name].v)},
+                                  "a prefix's stored value differs from what its definition evaluates to")
+                    continue
+                run.count("prefix_python_ok")
+            else:
+                run.count("prefix_not_modelled")
+            # rink's own evaluation of the printed definition in the loaded context
+            a = probe.request({"op": "eval", "ctx": cid, "q": "(%s)" % e["exprs"][0]["text"], "spans": False, "json": False}, timeout=30)
+            rep = a.get("r") or {}
+            if rep.get("kind") == "number" and rep["value"]["raw"] and not rep["value"]["raw"].get("f"):
+                raw = rep["value"]["raw"]
+                if Fraction(int(raw["n"]), int(raw["d"])) != sv or raw["u"]:
+                    run.violation({"kind": "prefix_value_not_fixed_point", "name": name},
+                                  {"db": tag, "definition": e["exprs"][0]["text"], "stored": str(sv), "rink_eval": raw},
+                                  "a prefix's stored value differs from what its definition evaluates to in the loaded context")
+                    continue
+                run.count("prefix_rink_reeval_ok")
+            if e["extra"].get("is_long"):
+                uj = dump["units"].get(name)
+                if uj is None or uj.get("f") or Fraction(int(uj["n"]), int(uj["d"])) != sv or uj["u"]:
+                    run.violation({"kind": "long_prefix_unit_differs_from_prefix", "name": name},
+                                  {"db": tag, "unit": uj, "prefix": str(sv)}, "")
+                    continue
+            run.seen(tag + "|p|" + name)
+
+
 def run(tier, seed):
     run = Run("C08", tier, seed, "exploration", floor=2000)
     run.rule = ("every entry of the loaded bundled database (and of bundled+currency overlay): stored value vs "
@@ -275,6 +345,8 @@ def run(tier, seed):
             if i == 0:
                 dump, reg = check_context(run, probe, cid, variant)
                 check_substances(run, probe, dump, reg, variant, "bundled")
+                check_prefixes(run, probe, cid, dump, reg, variant,
+                               ["bundled"] + (["currency_units"] if variant != "bundled" else []))
                 first = canon(dump)
                 run.extra_cov.setdefault("database_sizes", {})[variant] = {
                     "units": len(dump["units"]), "definitions": len(dump["definitions"]),
